@@ -1469,6 +1469,19 @@ class Inliner:
                         continue
                     q, recv, (hfn, hcls, hfunc, hmn) = site
                     if _has(hfn, (ast.Yield, ast.YieldFrom)):
+                        # a generator that is one filtered loop is a generator expression
+                        gb, gmap, gpre, gok = self._bind(n, hfn, recv, q)
+                        if gok and not gpre and len(gb) == 1 and isinstance(gb[0], ast.For) and not gb[0].orelse and len(gb[0].body) == 1:
+                            inner = gb[0].body[0]
+                            ifs = []
+                            while isinstance(inner, ast.If) and not inner.orelse and len(inner.body) == 1:
+                                ifs.append(inner.test)
+                                inner = inner.body[0]
+                            if isinstance(inner, ast.Expr) and isinstance(inner.value, ast.Yield) and inner.value.value is not None:
+                                ge = ast.GeneratorExp(elt=inner.value.value, generators=[ast.comprehension(target=gb[0].target, iter=gb[0].iter, ifs=ifs, is_async=0)])
+                                _replace_node(s, n, ast.fix_missing_locations(ast.copy_location(ge, n)))
+                                self._note(q, fq)
+                                return [s]
                         continue
                     body, exprmap, pre, ok = self._bind(n, hfn, recv, q)
                     if not ok:
